@@ -302,6 +302,35 @@ def check_arrays(mod, col: Collector, tier: str):
             ct = getattr(ctypes, "c_" + t) * n
             m = Mn()
             col.attempt(m, f"{f}=ctypes_array", lambda: setattr(m, f, ct(*good)), "in", lambda: getattr(m, f)[:], [conv(x) for x in good], cmpl)
+            # ctypes arrays of every OTHER element type: what counts is the values they carry, not the width of the carrier
+            for t2 in list(valx.INT_TYPES) + list(valx.FLOAT_TYPES):
+                if t2 == t:
+                    continue
+                ct2 = getattr(ctypes, "c_" + t2) * n
+                if t2 in valx.INT_TYPES:
+                    lo2, hi2 = valx.int_bounds(t2)
+                    specials = [lo2, hi2]
+                    base2 = [1, 2, 3, 4][:n]
+                else:
+                    specials = [INF, -1.0, F32MAX if t2 == "float" else F64MAX, 2.0]
+                    base2 = [1.0, 2.0, 3.0, 4.0][:n]
+                carried = [list(base2)]
+                for sp in specials:
+                    for pos in (0, n - 1):
+                        seq = list(base2)
+                        seq[pos] = sp
+                        carried.append(seq)
+                for seq in carried:
+                    src_arr = ct2(*seq)
+                    pyvals = list(src_arr)
+                    vds = [verdict(v) for v in pyvals]
+                    vd = "in" if all(x == "in" for x in vds) else ("out" if "out" in vds else "unspecified")
+                    for how in ("whole", "slice"):
+                        m = Mn()
+                        setattr(m, f, prefill)
+                        arr = getattr(m, f)
+                        act = (lambda: setattr(m, f, src_arr)) if how == "whole" else (lambda: arr.__setitem__(slice(0, n), src_arr))
+                        col.attempt(m, f"{f}={how}:ctypes({t2})({seq!r})", act, vd, lambda: getattr(m, f)[:], [conv(x) for x in pyvals] if vd == "in" else None, cmpl)
             # slices: every (start, stop, step), right / wrong length, good / one bad element
             for sl in slices(n):
                 idx = list(range(n))[sl]
